@@ -232,3 +232,205 @@ class UpdateCatalogExtent(Base):
     def post(self, c, a, out):
         new = a.br.boot_system_use
         return {'length-kept': len(new) == 1977, 'le32-extent': sx.le_int(V.items_of(new)[0:4]) == a.e, 'rest-unchanged': Eq(new[4:], a.old[4:])}
+
+
+# ---------------------------------------------------------------------------------------------
+# boot info table
+# ---------------------------------------------------------------------------------------------
+@contract
+class BootInfoTableRecord(Base):
+    """C11/bit: the 56-byte table is LE32(PVD sector), LE32(file sector), LE32(file length), LE32(checksum), then 40 zero bytes"""
+    target = BIT + '.record'
+
+    def setup(self, c):
+        a = c.a
+        a.pvd_extent = c.int('pvd_extent', 0, (1 << 32) - 1)
+        a.file_extent = c.int('file_extent', 0, (1 << 32) - 1)
+        a.orig_len = c.int('orig_len', 0, (1 << 32) - 1)
+        a.csum = c.int('csum', 0, (1 << 32) - 1)
+        vd = c.obj('pycdlib.headervd.PrimaryOrSupplementaryVD', _initialized=True, new_extent_loc=a.pvd_extent, orig_extent_loc=None)
+        ino = c.obj('pycdlib.inode.Inode', _initialized=True, new_extent_loc=a.file_extent, orig_extent_loc=0)
+        a.self = c.obj(BIT, _initialized=True, vd=vd, inode=ino, orig_len=a.orig_len, csum=a.csum)
+        return Call([], self_obj=a.self)
+
+    def post(self, c, a, out):
+        r = V.items_of(out.result)
+        if len(r) != 56:
+            return {'length-56': False}
+        return {'length-56': True, 'pvd-sector': sx.le_int(r[0:4]) == a.pvd_extent, 'file-sector': sx.le_int(r[4:8]) == a.file_extent,
+                'file-length': sx.le_int(r[8:12]) == a.orig_len, 'checksum': sx.le_int(r[12:16]) == a.csum, 'reserved-zero': Eq(V.mk_bytes(r[16:]), b'\x00' * 40)}
+
+
+def sum32le(items):
+    tot = 0
+    for i in range(0, len(items), 4):
+        tot = tot + sx.le_int(items[i:i + 4])
+    return tot
+
+
+class BitSumInner(LoopSpec):
+    """inner loop of the boot-info checksum.  Ghost g = exact sum of the LE words consumed so far (all sectors);
+    invariant: 0 <= csum < 2^32 and csum = g (mod 2^32).  The ghost chain g' = g + word persists across the cuts."""
+    unrolled = True
+    modifies = ('csum',)
+
+    def enter(self, it, frame):
+        if '__g' not in it.ctx.ghost:
+            it.ctx.ghost['__g'] = frame.locals['csum']  # 0 at the first sector
+        frame.locals['__prev_i'] = frame.locals['i']
+
+    def expected(self, it, frame):
+        block = V.items_of(frame.locals['block'])
+        i0, i = frame.locals['__prev_i'], frame.locals['i']
+        return it.ctx.ghost['__g'] + sum32le(block[i0:i])
+
+    def invariant(self, it, frame, phase):
+        csum = frame.locals['csum']
+        rng = sx.And(csum >= 0, csum < (1 << 32))
+        if phase == 'assume':
+            return {'congruent': csum == it.ctx.ghost['__g'] + (1 << 32) * it.ctx.fresh_int('t'), 'range': rng}
+        if phase == 'init':
+            w = it.ctx.ghost['__g']
+        else:
+            w = self.expected(it, frame)
+        if not sx.is_sym(csum - w):
+            return {'congruent': (csum - w) % (1 << 32) == 0, 'range': rng}
+        q = it.ctx.fresh_int('iq')
+        r = it.ctx.fresh_int('ir')
+        it.ctx.assume(sx.And(csum - w == (1 << 32) * q + r, r >= 0, r < (1 << 32)))
+        return {'congruent': r == 0, 'range': rng}
+
+    def persist(self, it, frame):
+        # ghost chain g' = g + word: kept in the path condition (needed by the post-condition) but outside the per-iteration VCs
+        g2 = it.ctx.fresh_int('g')
+        eq = g2 == self.expected(it, frame)
+        it.ctx.ghost['__g'] = g2
+        frame.locals['__prev_i'] = frame.locals['i']
+        return [eq]
+
+
+@contract
+class BootInfoChecksum(Base):
+    """C11/bit: the checksum is the sum (mod 2^32) of the LE 32-bit words of the boot file's bytes [64, n), the file being the n bytes
+    the user supplied (zero-padded to a sector) - whatever follows them in the source file object."""
+    target = 'pycdlib.pycdlib.PyCdlib._calculate_eltorito_boot_info_table_csum'
+    loops = {('pycdlib.pycdlib.PyCdlib._calculate_eltorito_boot_info_table_csum', 1): BitSumInner()}
+    n = 100
+    extra = 0
+
+    def setup(self, c):
+        a = c.a
+        a.content = c.bytes('content', self.n)
+        a.trail = c.bytes('trailing', self.extra)
+        a.fp = c.file(V.mk_bytes(V.items_of(a.content) + V.items_of(a.trail)))
+        a.self = c.obj('pycdlib.pycdlib.PyCdlib', _initialized=True, logical_block_size=2048)
+        pad = (-self.n) % 2048
+        body = V.items_of(a.content)[64:] + [0] * pad if self.n > 64 else []
+        body = body + [0] * ((-len(body)) % 4)
+        a.q, a.spec = c.divmod(sum32le(body), 1 << 32)
+        return Call([a.fp, self.n], self_obj=a.self)
+
+    def post(self, c, a, out):
+        return {'sum-of-file-words-from-64': out.result == a.spec}
+
+
+# ---------------------------------------------------------------------------------------------
+# boot catalog
+# ---------------------------------------------------------------------------------------------
+def make_catalog(c, nsections, platform=0, efi_sections=()):
+    """a catalog built with the real new()/add_section() calls (no-emulation entries with symbolic sizes)"""
+    a = c.a
+    br = c.obj('pycdlib.headervd.BootRecord', _initialized=True, boot_system_use=b'\x00' * 1977)
+    cat = c.new(BC, br)
+    a.inos = []
+    a.counts = []
+    for k in range(nsections + 1):
+        ino = c.obj('pycdlib.inode.Inode', _initialized=True, linked_records=[], data_length=2048, new_extent_loc=-1, num_udf=0)
+        cnt = c.int('count%d' % k, 0, 65535)
+        a.inos.append(ino)
+        a.counts.append(cnt)
+        if k == 0:
+            c.call(BC + '.new', cat, br, ino, cnt, 0, 'noemul', 0, platform, True)
+        else:
+            c.call(BC + '.add_section', cat, ino, cnt, 0, 'noemul', 0, (k in efi_sections), True)
+    return cat
+
+
+@contract
+class CatalogRecord(Base):
+    """C11/catalog: validation entry, initial entry, then per section a header (0x90 ... 0x90, 0x91 last; platform = validation platform
+    or 0xef for EFI; one entry) and its entry with the requested load size; 64 + 64k bytes <= one sector"""
+    target = BC + '.record'
+    k = 0
+    platform = 0
+
+    def setup(self, c):
+        a = c.a
+        a.efi = tuple(i for i in range(1, self.k + 1) if i % 2 == 0)
+        a.self = make_catalog(c, self.k, self.platform, a.efi)
+        return Call([], self_obj=a.self)
+
+    def post(self, c, a, out):
+        r = V.items_of(out.result)
+        n = 64 + 64 * self.k
+        if len(r) != n:
+            return {'length': False}
+        cl = {'length': n <= 2048,
+              'validation': And(r[0] == 1, r[1] == self.platform, r[30] == 0x55, r[31] == 0xAA, sum16(r[:32]) % 65536 == 0),
+              'initial-entry': And(r[32] == 0x88, r[33] == 0, r[38] + 256 * r[39] == a.counts[0])}
+        for j in range(1, self.k + 1):
+            h = 64 * j
+            e = h + 32
+            cl['section%d' % j] = And(r[h] == (0x91 if j == self.k else 0x90), r[h + 1] == (0xef if j in a.efi else self.platform),
+                                      r[h + 2] + 256 * r[h + 3] == 1, r[e] == 0x88, r[e + 1] == 0, r[e + 6] + 256 * r[e + 7] == a.counts[j])
+        return cl
+
+
+@contract
+class CatalogTooManySections(Base):
+    """the 32nd section is refused with InvalidInput and the catalog is unchanged"""
+    target = BC + '.add_section'
+    covers = ('raise:PyCdlibInvalidInput',)
+
+    def setup(self, c):
+        a = c.a
+        a.self = make_catalog(c, 31)
+        a.before = c.call(BC + '.record', a.self)
+        a.ino = c.obj('pycdlib.inode.Inode', _initialized=True, linked_records=[], data_length=2048)
+        return Call([a.ino, 4, 0, 'noemul', 0, False, True], self_obj=a.self)
+
+    def raises(self, c, a):
+        return {'PyCdlibInvalidInput': True}
+
+    def post_raise(self, c, a, out):
+        after = c.call(BC + '.record', a.self)
+        return {'catalog-unchanged': Eq(after, a.before), 'inode-not-linked': len(a.ino.linked_records) == 0}
+
+
+@contract
+class RmEltoritoDetachEntry(Base):
+    """C11/rm (fragment of PyCdlib.rm_eltorito: body of `for entry in entries_to_remove`): the El Torito entry leaves its inode's
+    reference list - and only it - and the boot info table that add_eltorito attached to the boot file is detached as well
+    ('removing El Torito removes all of this')."""
+    target = 'pycdlib.pycdlib.PyCdlib.rm_eltorito'
+    label = 'pycdlib.PyCdlib.rm_eltorito<for entry in entries_to_remove>'
+    with_table = True
+
+    def setup(self, c):
+        a = c.a
+        a.rec = c.obj('pycdlib.dr.DirectoryRecord', initialized=True)
+        a.other = c.obj(EE, _initialized=True, sector_count=4, inode=None)
+        a.table = c.obj(BIT, _initialized=True, orig_len=100, csum=0) if self.with_table else None
+        a.ino = c.obj('pycdlib.inode.Inode', _initialized=True, data_length=100, boot_info_table=a.table, linked_records=[])
+        a.entry = c.obj(EE, _initialized=True, sector_count=4, inode=a.ino)
+        a.ino.linked_records = [(a.rec, True), (a.entry, False), (a.other, False)]
+        return Call([], fn=Fragment(self.target, {'for_iter': 'entries_to_remove'}, dict(entry=a.entry)))
+
+    def post(self, c, a, out):
+        lr = a.ino.linked_records
+        return {'entry-unlinked': all(x[0] is not a.entry for x in lr),
+                'others-kept-in-order': len(lr) == 2 and lr[0][0] is a.rec and lr[1][0] is a.other,
+                'boot-info-table-detached': a.ino.boot_info_table is None}
+
+    def observe(self, c, a, out):
+        return {'kind': out.kind, 'n': len(a.ino.linked_records), 'table': a.ino.boot_info_table is None}
